@@ -371,12 +371,31 @@ static void mode_rt(size_t shard, size_t nshards, size_t nrandom) {
 }
 
 /* --------------------------------------------------------------------- cmp */
-static void cmp_emit(const uint64_t *a, const uint64_t *b, size_t n) {
+/* how a key is produced: 0 = varintTaggedPut64; 1 = put another value, then
+ * varintTaggedAddGrow the difference in place; 2 = same with AddNoGrow when
+ * the result cannot be longer than the slot.  A stored tagged varint must be
+ * THE tagged encoding of its value however it got there. */
+static size_t key_put(uint8_t *k, uint64_t v, int how) {
+    if (how == 0) {
+        return varintTaggedPut64(k, v);
+    }
+    /* start from a value of at least the same length so that no-grow applies */
+    uint64_t start = how == 2 ? (v < (1ULL << 62) ? v * 2 + 70000 : v) : v / 2;
+    if ((int64_t)start < 0 || (int64_t)v < 0) {
+        return varintTaggedPut64(k, v); /* keep the signed sum in range */
+    }
+    varintTaggedPut64(k, start);
+    int64_t amt = (int64_t)v - (int64_t)start;
+    varintWidth w = how == 1 ? varintTaggedAddGrow(k, amt) : varintTaggedAddNoGrow(k, amt);
+    return (size_t)w;
+}
+
+static void cmp_emit_how(const uint64_t *a, const uint64_t *b, size_t n, int how) {
     uint8_t ka[64], kb[64];
     size_t la = 0, lb = 0;
     for (size_t i = 0; i < n; i++) {
-        la += varintTaggedPut64(ka + la, a[i]);
-        lb += varintTaggedPut64(kb + lb, b[i]);
+        la += key_put(ka + la, a[i], how);
+        lb += key_put(kb + lb, b[i], 0);
     }
     size_t m = la < lb ? la : lb;
     int c = memcmp(ka, kb, m);
@@ -384,6 +403,7 @@ static void cmp_emit(const uint64_t *a, const uint64_t *b, size_t n) {
      * length, as any key-value store does */
     int sign = c < 0 ? -1 : c > 0 ? 1 : (la < lb ? -1 : la > lb ? 1 : 0);
     ev_begin("Cmp");
+    ev_int("how", how);
     ev_words("a", a, n);
     ev_words("b", b, n);
     ev_bytes("ka", ka, la);
@@ -391,6 +411,9 @@ static void cmp_emit(const uint64_t *a, const uint64_t *b, size_t n) {
     ev_int("sign", sign);
     ev_int("prefix", c == 0 && la != lb);
     ev_end();
+}
+static void cmp_emit(const uint64_t *a, const uint64_t *b, size_t n) {
+    cmp_emit_how(a, b, n, 0);
 }
 
 static void mode_cmp(size_t shard, size_t nshards, size_t nrandom) {
@@ -403,6 +426,10 @@ static void mode_cmp(size_t shard, size_t nshards, size_t nrandom) {
         cmp_emit(&vals[i], &vals[i + 1], 1);
         cmp_emit(&vals[i + 1], &vals[i], 1);
         cmp_emit(&vals[i], &vals[i], 1);
+        /* the same value reached by an in-place add must give the same bytes */
+        cmp_emit_how(&vals[i], &vals[i], 1, 1);
+        cmp_emit_how(&vals[i], &vals[i + 1], 1, 2);
+        cmp_emit_how(&vals[i + 1], &vals[i], 1, 2);
     }
     /* pairs differing in exactly one payload byte, random pairs, tuples */
     for (size_t i = 0; i < nrandom; i++) {
